@@ -30,6 +30,8 @@ func init() {
 				Doc: "A piece cut from Accept/Content-Type is trimmed after its last cut and before it is compared with Produces/Consumes entries; trimming first and cutting afterwards leaves the blank before ';' in the token and a legal header is refused (or a different route admitted)."},
 			{ID: "C01.f", Template: "T-SIBLING", Required: false, Run: ruleSubmatchContext,
 				Doc: "'Custom-verb suffix equal': text captured by a group of a package-level pattern (the verb letters out of ':verb') is used to test the request token only with the pattern's literal context put back (':' in front). Testing with the letters alone takes 'nocancel' for ':cancel'."},
+			{ID: "C01.h", Template: "T-GUARD", Required: true, Run: ruleMediaMatchers,
+				Doc: "Inside the media-type matchers: 'admitted' is answered only under an equality with an element of the declared Consumes/Produces list, under 'nothing declared', under 'no Content-Type sent', or (Accept only) for a */* range of the request. A loop shared between the two matchers is analysed per caller: the Accept-only wildcard rule must not admit `Content-Type: */*`."},
 			{ID: "C01.g", Template: "T-ARGS", Required: false, SourceOnly: true, Run: ruleArgumentOrder,
 				Doc: "Route token and request token, template tokens and URL tokens, root path and route path have the same type; a call that passes the variable named like the callee's second parameter first and the one named like the first second has them crossed (isMatchCustomVerb(requestToken, routeToken)). Decided on names, and only for an exact crosswise match; a call whose arguments are not named like the parameters is not judged."},
 		},
@@ -489,27 +491,46 @@ func ruleC01c(c *Ctx) {
 		}
 		eachInstr(cal, func(i ssa.Instruction) {
 			call, ok := i.(*ssa.Call)
-			if !ok || calleeName(&call.Call) != "regexp.MatchString" {
+			if !ok {
 				return
 			}
-			var matched ssa.Value
-			for _, r := range referrers(call) {
-				if ex, ok := r.(*ssa.Extract); ok && ex.Index == 0 {
-					matched = ex
-				}
+			matched := regexMatchResult(call)
+			if matched == nil {
+				return
 			}
 			okEnf := false
-			if matched != nil {
-				for _, r := range referrers(matched) {
+			var follow func(v ssa.Value, depth int)
+			follow = func(v ssa.Value, depth int) {
+				for _, r := range referrers(v) {
 					if iff, ok := r.(*ssa.If); ok {
 						pos, _ := canReachPositive(iff.Block().Succs[1], iff.Block())
 						okEnf = !pos
 					}
-					if ret, ok := r.(*ssa.Return); ok && ret.Results[0] == matched {
+					if ret, ok := r.(*ssa.Return); ok && ret.Results[0] == v {
 						okEnf = true
+					}
+					// `m != nil && m.MatchString(tok)`: the answer is false on every other edge
+					if phi, ok := r.(*ssa.Phi); ok && depth < 2 {
+						others := true
+						for _, e := range phi.Edges {
+							if e == v {
+								continue
+							}
+							if b, isC := constBool(e); !isC || b {
+								others = false
+							}
+						}
+						if others {
+							follow(phi, depth+1)
+						}
+					}
+					// matched && err == nil
+					if bo, ok := r.(*ssa.BinOp); ok && bo.Op == token.AND && depth < 2 {
+						follow(bo, depth+1)
 					}
 				}
 			}
+			follow(matched, 0)
 			c.check(okEnf, p.fname(cal), "a failed regular-expression match is a failed token", p.ipos(i), "the false outcome of regexp.MatchString cannot produce a positive answer", "the result of regexp.MatchString does not decide the answer")
 			// any other positive answer of the helper is the tail wildcard: under `<expression> == "*"`
 			cfacts := factsAt(cal)
@@ -918,6 +939,35 @@ func valueTaint(p *Program, fn *ssa.Function, src ssa.Value) map[ssa.Value]bool 
 	return t
 }
 
+// regexMatchResult: call applies a regular expression to a string: regexp.MatchString(expr, s) or
+// (*regexp.Regexp).MatchString(s) on a compiled expression; the boolean outcome, else nil.
+func regexMatchResult(call *ssa.Call) ssa.Value {
+	switch calleeName(&call.Call) {
+	case "regexp.MatchString":
+		for _, r := range referrers(call) {
+			if ex, ok := r.(*ssa.Extract); ok && ex.Index == 0 {
+				return ex
+			}
+		}
+	case "(*regexp.Regexp).MatchString":
+		// an expression compiled from a value (a template token), not one of the package's own patterns
+		if curProgram != nil {
+			for _, src := range curProgram.sources(call.Call.Args[0], provOpt{ThroughCells: true, ThroughTypeAssert: true, ThroughCalls: 2}) {
+				if u, ok := strip(src).(*ssa.UnOp); ok {
+					if _, isG := u.X.(*ssa.Global); isG {
+						return nil
+					}
+					if _, isF := u.X.(*ssa.FieldAddr); isF {
+						return nil // a precompiled expression kept in a struct (pathExpression.Matcher)
+					}
+				}
+			}
+		}
+		return call
+	}
+	return nil
+}
+
 // regexHelperOf: the module function reachable from fn (static calls) that applies regexp.MatchString.
 func regexHelperOf(p *Program, fn *ssa.Function) *ssa.Function {
 	var out *ssa.Function
@@ -926,8 +976,11 @@ func regexHelperOf(p *Program, fn *ssa.Function) *ssa.Function {
 			continue
 		}
 		eachInstr(f, func(i ssa.Instruction) {
-			if isCallTo(i, "regexp.MatchString") {
-				out = f
+			if call, ok := i.(*ssa.Call); ok && regexMatchResult(call) != nil {
+				// several candidates: the choice must not depend on map order
+				if out == nil || p.fname(f) < p.fname(out) {
+					out = f
+				}
 			}
 		})
 	}
